@@ -31,6 +31,9 @@ def check(repo, rep, tier):
     rep.rule('R3.4', 'non-schema rules: result in {input, Y\\Y, feature-free literal under literal-pinned inputs}')
     rep.rule('R3.5', 'label vocabulary and head_is_left=True')
     rep.rule('R3.6', 'registry complete; apply_binary_rules filter-free fold; None only on unification failure / R3.3')
+    from ..lints import r_late_binding
+    r_late_binding(repo, rep, 'R3.5', [rg.EN, 'depccg/grammar/__init__.py'],
+                   'every rule built by the loop carries the label (or pattern) of the last one, so a result is labelled with a schema that does not justify it')
     rg.check_is_modifier(mod, rep, 'R3.2')
     rg.check_is_punct(mod, rep, 'R3.4')
     rg.check_is_type_raised(mod, rep, 'R3.4')
